@@ -13,18 +13,53 @@ type GenOptions struct {
 	Affected   bool // allow messages.affected* results (marker entries, HandleAffected actions)
 	Foreign    bool // allow differences that forward updates of other sequences, and unknown channels
 	Faults     bool // allow transient failures of difference requests
+	Fresh      bool // allow channels without stored state (met during the run) and access hashes learnt late
 }
 
 // Gen builds a random scenario: a server log mixing new messages, pts-bearing non-message
 // updates, qts updates, channel messages/updates and position-less updates, delivered with loss,
 // duplication, reordering, batching, forced recoveries, sliced differences.
 func Gen(r *hc.RNG, o GenOptions) (Scenario, map[int]bool) {
-	s := Scenario{P0: hc.Pick(r, 10, 1, 100, r.Range(1, 50)), Q0: hc.Pick(r, 0, 3, r.Range(0, 9)), C0: map[int64]int{}}
+	s := Scenario{P0: hc.Pick(r, 10, 1, 100, r.Range(1, 50)), Q0: hc.Pick(r, 0, 3, r.Range(0, 9)), C0: map[int64]int{}, Fresh: map[int64]bool{}, Late: map[int64]bool{}}
 	var chans []int64
 	for i := 0; i < o.Channels; i++ {
 		c := int64(5 + 3*i)
 		chans = append(chans, c)
 		s.C0[c] = hc.Pick(r, 5, 1, r.Range(1, 30))
+		if o.Fresh && r.Chance(45) {
+			s.Fresh[c] = true // the storage has never heard of it: met through a push or a forwarded update
+		}
+		if o.Fresh && r.Chance(12) {
+			s.Late[c] = true // its access hash becomes known only with an action K (or never)
+		}
+	}
+	// which channels have a worker at this point of the schedule (extras are only attached to
+	// differences of those: a channel without a worker asks for none)
+	live, known := map[int64]bool{}, map[int64]bool{}
+	for _, c := range chans {
+		live[c] = !s.Fresh[c] && !s.Late[c]
+	}
+	touch := func(ids []int) {
+		for _, id := range ids {
+			e := s.Log[id-1]
+			if _, ours := s.C0[e.Chan]; (e.Kind == KChMsg || e.Kind == KChOther) && ours && (!s.Late[e.Chan] || known[e.Chan]) {
+				live[e.Chan] = true
+			}
+		}
+	}
+	// an update (that has happened) of a channel nobody has met yet, to be forwarded inside a difference
+	unmet := func(upto int, x []int) []int {
+		for _, e := range s.Log[:upto] {
+			if _, ours := s.C0[e.Chan]; (e.Kind == KChMsg || e.Kind == KChOther) && ours && !live[e.Chan] && (!s.Late[e.Chan] || known[e.Chan]) && r.Chance(40) {
+				for _, id := range x {
+					if id == e.ID {
+						return x
+					}
+				}
+				return append(x, e.ID)
+			}
+		}
+		return x
 	}
 	pts, qts := s.P0, s.Q0
 	cp := map[int64]int{}
@@ -105,6 +140,7 @@ func Gen(r *hc.RNG, o GenOptions) (Scenario, map[int]bool) {
 				ids[0], ids[len(ids)-1] = ids[len(ids)-1], ids[0]
 			}
 			s.Actions = append(s.Actions, Action{Op: "p", IDs: ids})
+			touch(ids)
 		case r.Chance(50):
 			s.Actions = append(s.Actions, Action{Op: "e", N: 1}) // lost
 		default:
@@ -115,27 +151,55 @@ func Gen(r *hc.RNG, o GenOptions) (Scenario, map[int]bool) {
 		if len(delayed) > 0 && r.Chance(35) {
 			j := r.Intn(len(delayed))
 			s.Actions = append(s.Actions, Action{Op: "p", IDs: []int{delayed[j]}})
+			touch([]int{delayed[j]})
 			delayed = append(delayed[:j], delayed[j+1:]...)
 		}
 		if r.Chance(8) { // duplicate of anything that already happened
-			s.Actions = append(s.Actions, Action{Op: "p", IDs: []int{s.Log[r.Intn(i)].ID}})
+			id := s.Log[r.Intn(i)].ID
+			s.Actions = append(s.Actions, Action{Op: "p", IDs: []int{id}})
+			touch([]int{id})
+		}
+		for _, c := range chans { // the access hash of a late channel becomes known
+			if s.Late[c] && !known[c] && r.Chance(12) {
+				s.Actions = append(s.Actions, Action{Op: "K", C: c})
+				known[c] = true
+			}
 		}
 		if r.Chance(8) {
 			if o.Foreign && r.Chance(50) { // the difference forwards channel / position-less / unknown-channel updates
-				if x := pickExtras(r, s.Log[:i], func(e Entry) bool { return e.Seq() != "pts" && e.Seq() != "qts" && !e.IsMarker() }); len(x) > 0 {
+				if x := unmet(i, pickExtras(r, s.Log[:i], func(e Entry) bool { return e.Seq() != "pts" && e.Seq() != "qts" && !e.IsMarker() })); len(x) > 0 {
 					s.Actions = append(s.Actions, Action{Op: "X", C: 0, IDs: x})
+					touch(x)
 				}
 			}
 			s.Actions = append(s.Actions, Action{Op: "T"})
 		}
 		if len(chans) > 0 && r.Chance(8) {
 			c := hc.Pick(r, chans...)
-			if o.Foreign && r.Chance(50) { // … updates of other channels, common updates, position-less ones
-				if x := pickExtras(r, s.Log[:i], func(e Entry) bool { return !(e.Chan == c && e.Seq() != "") && !e.IsMarker() }); len(x) > 0 {
+			if o.Foreign && live[c] && r.Chance(50) { // … updates of other channels, common updates, position-less ones
+				if x := unmet(i, pickExtras(r, s.Log[:i], func(e Entry) bool { return !(e.Chan == c && e.Seq() != "") && !e.IsMarker() })); len(x) > 0 {
 					s.Actions = append(s.Actions, Action{Op: "X", C: c, IDs: x})
+					touch(x)
 				}
 			}
 			s.Actions = append(s.Actions, Action{Op: "CT", C: c})
+		}
+		if o.Foreign && o.Fresh && r.Chance(25) { // a channel nobody has met is met through a difference of something else
+			if x := unmet(i, nil); len(x) > 0 {
+				var lc []int64
+				for _, c := range chans {
+					if live[c] && s.Log[x[0]-1].Chan != c {
+						lc = append(lc, c)
+					}
+				}
+				if len(lc) > 0 && r.Bool() {
+					c := hc.Pick(r, lc...)
+					s.Actions = append(s.Actions, Action{Op: "X", C: c, IDs: x}, Action{Op: "CT", C: c})
+				} else {
+					s.Actions = append(s.Actions, Action{Op: "X", C: 0, IDs: x}, Action{Op: "T"})
+				}
+				touch(x)
+			}
 		}
 		if o.TooLong && r.Chance(4) {
 			s.Actions = append(s.Actions, Action{Op: "TL"}, Action{Op: "T"})
@@ -156,6 +220,23 @@ func Gen(r *hc.RNG, o GenOptions) (Scenario, map[int]bool) {
 		}
 		if r.Chance(10) { // the gap timers fire (through the hook, no real waiting)
 			s.Actions = append(s.Actions, Action{Op: "F"})
+		}
+	}
+	// a channel nobody has met so far is often met at the very end, through any one of its updates
+	for _, c := range chans {
+		if live[c] || (s.Late[c] && !known[c]) || !r.Chance(70) {
+			continue
+		}
+		var own []int
+		for _, e := range s.Log {
+			if e.Chan == c && (e.Kind == KChMsg || e.Kind == KChOther) {
+				own = append(own, e.ID)
+			}
+		}
+		if len(own) > 0 {
+			id := own[r.Intn(len(own))]
+			s.Actions = append(s.Actions, Action{Op: "p", IDs: []int{id}})
+			touch([]int{id})
 		}
 	}
 	// marker entries never travel in containers: split them out of every push into HandleAffected
